@@ -138,6 +138,11 @@ func (g Graph) php() string {
 type Catch struct {
 	Types []int  `json:"t"`
 	Body  []Stmt `json:"b,omitempty"`
+	// Q (quiet): the clause is rendered WITHOUT its `echo "C<i>.<k>:…"` marker, so that its body is exactly Body —
+	// `catch (K $e) { throw $e; }`, `catch (K $e) {}`, `catch (K $e) { return 7; }` … (shape streams: a parser or a
+	// constructor that treats such "pure control" bodies specially never meets them otherwise). The model still
+	// emits the clause's `caught` event; it is hidden from its answer (Model.Exc.hide, driver commands runq / specq).
+	Q bool `json:"q,omitempty"`
 }
 
 // K: e echo(N) · t throw(Cls,N=site) · rt rethrow · gp host panic · r return(N) · b break · c continue ·
@@ -156,6 +161,35 @@ type Stmt struct {
 	// constructor (`new H()`; only for bodies that return no value). The model has one notion of call
 	// (Model.Exc.callResult): every kind must hand on controls the way FunctionStatement.Call does.
 	Via string `json:"via,omitempty"`
+	// Q (statements of kind y only): the parts rendered without their marker — b: the try block does not start with
+	// `echo "T<i>;"`, f: the finally block does not start with `echo "F<i>;"` (see Catch.Q)
+	Q string `json:"q,omitempty"`
+}
+
+func (s Stmt) quiet(part byte) bool { return containsByte(s.Q, part) }
+
+// the markers the rendering leaves out, as the driver's runq / specq commands take them: `T<i>,F<i>,C<i>.<k>,…`
+func (c Case) quietList() string {
+	var q []string
+	for _, b := range c.blocks() {
+		walk(b, func(s Stmt) {
+			if s.K != "y" {
+				return
+			}
+			if s.quiet('b') {
+				q = append(q, fmt.Sprintf("T%d", s.N))
+			}
+			if s.quiet('f') {
+				q = append(q, fmt.Sprintf("F%d", s.N))
+			}
+			for k, cl := range s.Catches {
+				if cl.Q {
+					q = append(q, fmt.Sprintf("C%d.%d", s.N, k))
+				}
+			}
+		})
+	}
+	return strings.Join(q, ",")
 }
 
 // the kinds of callee a statement of kind f can be rendered as
@@ -401,7 +435,10 @@ func (r *renderer) block(sb *strings.Builder, b []Stmt, ind string, catchVar str
 		case "cf":
 			fmt.Fprintf(sb, "%sif ($n > 0) {\n%s  $r = g%d($n - 1);\n%s  echo \"R\", is_int($r) ? $r : \"-\", \";\";\n%s}\n", ind, ind, s.N, ind, ind)
 		case "y":
-			fmt.Fprintf(sb, "%stry {\n%s  %s\n", ind, ind, r.echoNum("T", s.N, ";"))
+			fmt.Fprintf(sb, "%stry {\n", ind)
+			if !s.quiet('b') {
+				fmt.Fprintf(sb, "%s  %s\n", ind, r.echoNum("T", s.N, ";"))
+			}
 			r.block(sb, s.Body, ind+"  ", catchVar)
 			fmt.Fprintf(sb, "%s}", ind)
 			for k, c := range s.Catches {
@@ -410,7 +447,9 @@ func (r *renderer) block(sb *strings.Builder, b []Stmt, ind string, catchVar str
 					ts = append(ts, r.g.phpName(t))
 				}
 				v := fmt.Sprintf("$e%d", s.N)
-				if r.rec {
+				if c.Q {
+					fmt.Fprintf(sb, " catch (%s %s) {\n", strings.Join(ts, " | "), v)
+				} else if r.rec {
 					fmt.Fprintf(sb, " catch (%s %s) {\n%s  echo \"C\", %s, \".%d:\", cm(%s), \";\";\n", strings.Join(ts, " | "), v, ind, r.num(s.N), k, v)
 				} else {
 					fmt.Fprintf(sb, " catch (%s %s) {\n%s  echo \"C%d.%d:\", cm(%s), \";\";\n", strings.Join(ts, " | "), v, ind, s.N, k, v)
@@ -419,7 +458,10 @@ func (r *renderer) block(sb *strings.Builder, b []Stmt, ind string, catchVar str
 				fmt.Fprintf(sb, "%s}", ind)
 			}
 			if s.HasFin {
-				fmt.Fprintf(sb, " finally {\n%s  %s\n", ind, r.echoNum("F", s.N, ";"))
+				fmt.Fprintf(sb, " finally {\n")
+				if !s.quiet('f') {
+					fmt.Fprintf(sb, "%s  %s\n", ind, r.echoNum("F", s.N, ";"))
+				}
 				r.block(sb, s.Fin, ind+"  ", catchVar)
 				fmt.Fprintf(sb, "%s}", ind)
 			}
